@@ -707,8 +707,10 @@ def normalise_gathers(fn) -> int:
                 def_line[n.targets[0].id] = n.lineno
         loops_ = [l for l in ast.walk(fn.node) if isinstance(l, (ast.For, ast.While))]
         good = set()
+        from .astutil import mutated_names
+        mutated = mutated_names(fn)
         for k, v in cands.items():
-            if k not in def_line:
+            if k not in def_line or k in mutated:
                 continue
             ok = True
             uses = [n for n in ast.walk(fn.node) if isinstance(n, ast.Name) and n.id == k and isinstance(n.ctx, ast.Load)]
@@ -718,9 +720,11 @@ def normalise_gathers(fn) -> int:
             for u in uses:
                 par = parents.get(id(u))
                 gp = parents.get(id(par)) if par is not None else None
+                is_arange = isinstance(v, ast.Call) and norm(v.func) in ('np.arange', 'numpy.arange')
                 idx_pos = (isinstance(par, ast.Subscript) and par.slice is u) or \
                           (isinstance(par, ast.Tuple) and isinstance(gp, ast.Subscript) and gp.slice is par) or \
-                          (isinstance(par, ast.Subscript) and par.value is u and not isinstance(par.slice, ast.Slice)
+                          (not is_arange and _nonzero_mask(v) is not None and isinstance(par, ast.Subscript) and par.value is u
+                           and isinstance(par.ctx, ast.Load) and not isinstance(par.slice, ast.Slice)
                            and isinstance(parents.get(id(par)), (ast.Assign, ast.Subscript))) or \
                           (isinstance(par, ast.Call) and norm(par.func).split('.')[-1] == 'take' and u in par.args[-2:] and u is not par.args[0])
                 if not idx_pos:
